@@ -1,36 +1,35 @@
 //! Scratch probe (not a registered check).
-use jrv::handlers::{self, Log};
-use jrv::memsrv::*;
+use jrv::clientsim::*;
 use jrv::runner::*;
-use jsonrpsee_server::ServerConfig;
+use jsonrpsee_core::client::{Subscription, SubscriptionClientT};
+use jsonrpsee_core::rpc_params;
+use serde_json::{Value, json};
 use std::time::Duration;
 
 fn main() {
 	block_on_virtual(async {
-		let log = Log::default();
-		let cfg = ServerConfig::builder().max_request_body_size(100).set_message_buffer_capacity(1).build();
-		let mut srv = MemServer::new(cfg, handlers::echo_module(log.clone()));
-		srv.duplex_capacity = 200;
-		let mut ws = srv.ws().await.unwrap();
-		ws.set_reading(false);
-		tokio::time::sleep(Duration::from_millis(2)).await;
-		for i in 0..6 {
-			let r = ws.send_text(&format!("{{\"jsonrpc\":\"2.0\",\"id\":{i},\"method\":\"echo_sync\",\"params\":[\"{}\"]}}", "p".repeat(30))).await;
-			println!("send {i}: {r:?}");
-		}
-		tokio::time::sleep(Duration::from_millis(5)).await;
-		let big = format!("{{\"jsonrpc\":\"2.0\",\"id\":777,\"method\":\"echo_sync\",\"params\":[\"{}\"]}}", "o".repeat(60));
-		println!("big len {}", big.len());
-		let r = ws.send_text(&big).await;
-		println!("send big: {r:?}");
-		tokio::time::sleep(Duration::from_millis(20)).await;
-		ws.set_reading(true);
-		let r = ws.send_text("{\"jsonrpc\":\"2.0\",\"id\":\"s\",\"method\":\"sentinel\"}").await;
-		println!("send sentinel: {r:?}");
-		let frames = ws.drain_until_idle(Duration::from_secs(10)).await;
-		for f in &frames {
-			println!("frame: {}", f.text());
-		}
-		println!("ended: {:?}", ws.ended);
+		let (client, mut srv) = client(ClientCfg::default());
+		let c = client.clone();
+		let t = tokio::spawn(async move { c.subscribe::<Value, _>("sub", rpc_params!["a"], "unsub").await });
+		let (_, WireMsg::Single(q)) = srv.next_msg().await.unwrap() else { panic!() };
+		srv.push_text(ok_response(q.id.as_ref().unwrap(), json!("S")));
+		let mut a: Subscription<Value> = t.await.unwrap().unwrap();
+		srv.push_text(sub_notif("m", &json!("S"), json!(1)));
+		println!("A item: {:?}", a.next().await);
+		srv.push_text(sub_close("m", &json!("S"), json!("closed by server")));
+		println!("A after close: {:?}", a.next().await);
+		let c = client.clone();
+		let t = tokio::spawn(async move { c.subscribe::<Value, _>("sub", rpc_params!["b"], "unsub").await });
+		let (_, WireMsg::Single(q)) = srv.next_msg().await.unwrap() else { panic!() };
+		srv.push_text(ok_response(q.id.as_ref().unwrap(), json!("S")));
+		let mut b: Subscription<Value> = t.await.unwrap().unwrap();
+		srv.push_text(sub_notif("m", &json!("S"), json!(2)));
+		println!("B item: {:?}", b.next().await);
+		drop(a);
+		tokio::time::sleep(Duration::from_millis(50)).await;
+		srv.push_text(sub_notif("m", &json!("S"), json!(3)));
+		println!("B item after dropping the ended A: {:?}", tokio::time::timeout(Duration::from_secs(5), b.next()).await);
+		let out = srv.collect_until_idle(Duration::from_secs(1)).await;
+		println!("client wrote: {out:?}");
 	});
 }
